@@ -71,13 +71,14 @@ def tr_expr(t):
 
 
 _ITEM_BRACE = re.compile(r"(?:pub(?:\([a-z]+\))?\s+)?(?:unsafe\s+)?(?:mod|fn|impl|struct|enum|trait|union)\b")
+_BLOCK_STMT = re.compile(r"(?:if|match|for|while|loop|unsafe)\b")
 _ITEM_SEMI = re.compile(r"(?:pub(?:\([a-z]+\))?\s+)?(?:use|const|static|type)\b")
 
 
 def strip_cfg_verif(src):
     """Remove everything guarded by `#[cfg(prqlc_verif)]` (verification hooks: never compiled in normal builds):
     the attribute and the ONE item or statement it applies to -- an item with a body (`mod verif { .. }`, `fn`),
-    an item ending in `;` (`use`), a block statement `{ .. }`, or a statement running to the first `;` outside all
+    an item ending in `;` (`use`), a block statement (`{ .. }`, `if .. { .. } else { .. }`, `match`, loops), or a statement running to the first `;` outside all
     brackets (`let v = json!({..});`, `let (a, b) = { .. };`, `log::debug!(..);`, `ctx.verif_ensured(x);`).
     Comment/string aware (works on the mask).  Fails closed: any other mention of `prqlc_verif` (cfg!(..),
     cfg_attr, not(..), an attribute on an expression or a match arm) is an extraction error."""
@@ -102,6 +103,36 @@ def strip_cfg_verif(src):
             raise ExtractError("cfg(prqlc_verif): nothing follows the attribute")
         if m[i] == "{":
             end = _mb(m, i) + 1
+        elif _BLOCK_STMT.match(m, i):
+            # `if c { .. } [else if d { .. }] [else { .. }]`, `match x { .. }`, `for`/`while`/`loop`/`unsafe` blocks used as
+            # statements: the statement ends with the block (and its else chain), not at a `;`
+            j = i
+            while True:
+                depth = 0
+                while j < len(m) and not (m[j] == "{" and depth == 0):
+                    if m[j] in "([":
+                        depth += 1
+                    elif m[j] in ")]":
+                        depth -= 1
+                    elif m[j] == ";" and depth == 0:
+                        raise ExtractError("cfg(prqlc_verif): block statement without a block")
+                    j += 1
+                if j >= len(m):
+                    raise ExtractError("cfg(prqlc_verif): block statement without a block")
+                j = _mb(m, j) + 1
+                k = j
+                while k < len(m) and m[k].isspace():
+                    k += 1
+                if re.match(r"else\b", m[k:]):
+                    j = k + 4
+                    continue
+                break
+            end = j
+            k = j
+            while k < len(m) and m[k].isspace():
+                k += 1
+            if m.startswith(";", k):
+                end = k + 1
         elif _ITEM_BRACE.match(m, i):
             ob = m.find("{", i)
             semi = m.find(";", i)
